@@ -404,6 +404,124 @@ func c03Huge(c *fw.Ctx, idx int) {
 	}
 }
 
+// c03Observed: a line string of more than 4 million ordinates is written to a
+// writer that looks at the geometry every time it is called: while it is being
+// encoded the geometry must read as it always does (another goroutine may be
+// reading it), and the bytes must be the standard ones.  The expected stream is
+// generated position by position, not stored.
+func c03Observed(c *fw.Ctx, idx int) {
+	r := c.R
+	n := 4<<20 + 2*r.Range(0, 64)
+	if idx%4 == 3 {
+		n = 2*(1<<20) + 2*r.Range(0, 8)
+	}
+	flat := make([]float64, n)
+	for i := range flat {
+		flat[i] = float64(i%100003) + 0.5
+	}
+	t := geom.NewLineStringFlat(geom.XY, flat)
+	m := []wkbMode{{"wkb-xdr", ref.WKBOpts{BigEndian: true}}, {"ewkb-xdr", ref.WKBOpts{EWKB: true, BigEndian: true}}, {"wkb-ndr", ref.WKBOpts{}}, {"ewkb-ndr", ref.WKBOpts{EWKB: true}}}[idx%4]
+	if idx%8 >= 4 {
+		m = []wkbMode{{"wkb-xdr", ref.WKBOpts{BigEndian: true}}, {"ewkb-xdr", ref.WKBOpts{EWKB: true, BigEndian: true}}}[idx%2]
+	}
+	c.SetInput(map[string]any{"geometry": "LineString XY", "ordinates": n, "ordinate_i": "(i mod 100003) + 0.5", "mode": m.name})
+	ow := &observingWriter{flat: flat, big: m.o.BigEndian, n: n}
+	var err error
+	if c.Guard("panic", func() { err = m.write(ow, t) }) {
+		return
+	}
+	c.Eval(1)
+	c.Count("geometries_observed_while_being_written")
+	c.CountN("write_calls_observed", int64(ow.calls))
+	c.Distinct(fmt.Sprintf("observed/%s/%d", m.name, n))
+	if err != nil {
+		c.Fail("write-error", "%s: Write of a line string of %d ordinates failed: %v", m.name, n, err)
+		return
+	}
+	if ow.changedAt >= 0 {
+		c.Fail("argument-modified", "%s: during Write call %d the geometry's ordinate %d read %v instead of %v (the geometry was being modified while it was encoded)", m.name, ow.changedCall, ow.changedAt, ow.changedTo, float64(ow.changedAt%100003)+0.5)
+		return
+	}
+	if ow.badAt >= 0 || ow.pos != 9+8*n {
+		c.Fail("bytes-differ", "%s: stream differs from the standard encoding at offset %d (wrote %d bytes, want %d)", m.name, ow.badAt, ow.pos, 9+8*n)
+		return
+	}
+	for i, v := range flat {
+		if v != float64(i%100003)+0.5 {
+			c.Fail("argument-modified", "%s: after Write ordinate %d reads %v", m.name, i, v)
+			return
+		}
+	}
+}
+
+type observingWriter struct {
+	flat        []float64
+	big         bool
+	n, pos      int
+	calls       int
+	badAt       int
+	changedAt   int
+	changedCall int
+	changedTo   float64
+	init        bool
+}
+
+func (w *observingWriter) expect(pos int) byte {
+	ord := func(v uint32, i int) byte {
+		if w.big {
+			return byte(v >> (8 * uint(3-i)))
+		}
+		return byte(v >> (8 * uint(i)))
+	}
+	switch {
+	case pos == 0:
+		if w.big {
+			return 0
+		}
+		return 1
+	case pos < 5:
+		return ord(2, pos-1)
+	case pos < 9:
+		return ord(uint32(w.n/2), pos-5)
+	}
+	k := (pos - 9) / 8
+	bits := math.Float64bits(float64(k%100003) + 0.5)
+	i := (pos - 9) % 8
+	if w.big {
+		return byte(bits >> (8 * uint(7-i)))
+	}
+	return byte(bits >> (8 * uint(i)))
+}
+
+func (w *observingWriter) Write(p []byte) (int, error) {
+	if !w.init {
+		w.init, w.badAt, w.changedAt = true, -1, -1
+	}
+	w.calls++
+	// look at the geometry: the first and last 4096 ordinates and a stride through the rest
+	if w.changedAt < 0 {
+		look := func(i int) {
+			if w.changedAt < 0 && w.flat[i] != float64(i%100003)+0.5 {
+				w.changedAt, w.changedCall, w.changedTo = i, w.calls, w.flat[i]
+			}
+		}
+		for i := 0; i < 4096 && i < w.n; i++ {
+			look(i)
+			look(w.n - 1 - i)
+		}
+		for i := 0; i < w.n; i += 4099 {
+			look(i)
+		}
+	}
+	for i, b := range p {
+		if w.badAt < 0 && b != w.expect(w.pos+i) {
+			w.badAt = w.pos + i
+		}
+	}
+	w.pos += len(p)
+	return len(p), nil
+}
+
 func c03CodecOn(c *fw.Ctx, g *model.G, m wkbMode) {
 	r := c.R
 	t := g.BuildFlat()
@@ -1058,6 +1176,7 @@ func init() {
 			{Name: "sql", Quick: 24000, Thorough: 400000, Run: c03SQL},
 			{Name: "unsupported-layout", Quick: 2000, Thorough: 20000, Run: c03Unsupported},
 			{Name: "huge", Quick: 30, Thorough: 600, Chunk: 1, Run: c03Huge},
+			{Name: "observed-during-write", Quick: 8, Thorough: 64, Chunk: 1, Run: c03Observed},
 		},
 		Require: []string{"bytes_compared", "mode_wkb-ndr", "mode_wkb-xdr", "mode_wkb-nan-ndr", "mode_ewkb-ndr", "mode_ewkb-xdr", "empty_point_rejected_in_wkb_error_mode", "encoded_with_empty_point",
 			"reader_split_pattern_0", "reader_split_pattern_3", "writer_failure_positions", "hex_roundtrips", "concatenations", "sql_scan_matching", "sql_scan_wrong_type", "sql_non_bytes_rejected", "unsupported_layout_cases", "held_results_rechecked"},
